@@ -274,9 +274,9 @@ pub fn run(ctx: &mut Ctx) -> Result<(), Violation> {
     }
     ctx.stage("golden-readme-and-repo-files", true, (st, None))?;
 
-    let cases = ctx.tier.pick(30_000, 1_500_000);
+    let cases = ctx.tier.pick(150_000, 3_000_000);
     let (nn, dd) = (ctx.tier.pick(6, 8), ctx.tier.pick(5, 7));
-    let cli_every = ctx.tier.pick(150u64, 600u64);
+    let cli_every = ctx.tier.pick(400u64, 1500u64);
     let r = par_random(ctx, "random-formulas", cases, 300, |tape, st| {
         let mut t = Tape::new(tape);
         let nnames = 2 + t.choose(nn - 1);
@@ -301,7 +301,7 @@ pub fn run(ctx: &mut Ctx) -> Result<(), Violation> {
     ctx.stage("random-formulas", false, r)?;
 
     // a stage focused on fixed points
-    let cases = ctx.tier.pick(6_000, 200_000);
+    let cases = ctx.tier.pick(40_000, 600_000);
     let r = par_random(ctx, "random-fixpoint-formulas", cases, 300, |tape, st| {
         let mut t = Tape::new(tape);
         let mut cfg = Cfg::standard(2 + t.choose(3), 2 + t.choose(3));
